@@ -576,6 +576,7 @@ pub fn check_main(prop: &str, tier: Tier) -> i32 {
             "rule": spec.rule,
             "samples": samples,
             "runs_per_scenario": per_scenario,
+            "scenarios": spec.scenarios.iter().map(|sc| json!({"name": sc.name, "what": sc.doc, "runs_this_tier": runs_for(sc, tier)})).collect::<Vec<_>>(),
             "scheduler_steps": steps,
             "simulated_seconds": (sim_ns as f64) / 1e9,
             "runs_per_hour": if wall > 0.0 { (runs as f64) * 3600.0 / wall } else { 0.0 },
